@@ -30,6 +30,8 @@ type Job struct {
 	Procs        int
 	BlockTimeout time.Duration // no progress line for that long ⇒ hang (parent side)
 	ItemTimeout  time.Duration // trace mode
+	crashMu      sync.Mutex
+	crashTotal   map[string]int // crash key -> items attributed so far (all blocks)
 	MemLimitMB   int
 }
 
@@ -360,7 +362,23 @@ func (j *Job) drive(c *Check) {
 // to the item being processed, and skipping it on the next attempt.
 func (j *Job) traceBlock(c *Check, b int, merge func(m *wmsg)) {
 	skip := []string{}
+	perKey := map[string]int{}
 	for attempt := 0; attempt < 200; attempt++ {
+		// A defect that crashes or hangs on a large share of the inputs would cost one item timeout per
+		// input: once a key has been attributed a few times in this block, and often enough overall, the
+		// violation is established and the rest of the block is skipped (reported as a cap, never as clean).
+		j.crashMu.Lock()
+		stop := ""
+		for k, n := range perKey {
+			if n >= 3 || j.crashTotal[k] >= 12 {
+				stop = k
+			}
+		}
+		j.crashMu.Unlock()
+		if stop != "" {
+			c.Cap(fmt.Sprintf("block %d: crash key %q was attributed repeatedly; the rest of the block was not evaluated", b, stop))
+			return
+		}
 		var buffered []*wmsg
 		res := j.spawn(c, []string{"only", strconv.Itoa(b), strings.Join(skip, ",")}, j.ItemTimeout, func(m *wmsg) {
 			cp := *m
@@ -383,6 +401,13 @@ func (j *Job) traceBlock(c *Check, b int, merge func(m *wmsg)) {
 		// confirm solo 2 more times for hangs (rule 2): a slow machine must not alarm
 		c.Violate(k, f)
 		c.Hist("crash:"+f.Key, 1)
+		perKey[f.Key]++
+		j.crashMu.Lock()
+		if j.crashTotal == nil {
+			j.crashTotal = map[string]int{}
+		}
+		j.crashTotal[f.Key]++
+		j.crashMu.Unlock()
 		skip = append(skip, strconv.Itoa(res.lastItem))
 	}
 	c.Cap(fmt.Sprintf("block %d: more than 200 crashing items, rest of block not evaluated", b))
